@@ -64,6 +64,8 @@ MonKeyType ==
     /\ CheckSig("C02", "ConfiguredKeyVerifiesWhatItSigned", "keytype/" \o Ev.alg \o "/signature-check",
                 Ev.configok => Ev.validaccepted /\ Ev.garbagerefused /\ Ev.otherkeyrefused)
     /\ CheckSig("C19", "NoSignatureMakesTheVerifierPanic", "keytype/" \o Ev.alg \o "/panic", Ev.oddlengthssurvived)
+    \* C08: a log that signs its unchanged checkpoint again (key kinds with randomised signatures produce other, equally valid bytes) gets its refresh
+    /\ CheckSig("C08", "ResignedCheckpointRefreshes", "keytype/" \o Ev.alg \o "/resigned-refresh", Ev.configok /\ Ev.validaccepted => Ev.resignedrefresh)
 
 Monitor == CASE Ev.e = "start.shipped" -> MonShipped
              [] Ev.e = "keytype" -> MonKeyType
